@@ -5,7 +5,7 @@ from __future__ import annotations
 import ast
 from typing import Dict, List, Optional, Set, Tuple
 
-from .core import AnalysisError, Ctx, Repo, dotted, norm, walk_local
+from .core import AnalysisError, Ctx, Repo, dotted, effective_body, norm, walk_local
 from .paths import enumerate_paths
 
 CMP_DUNDERS = {"__eq__", "__ne__", "__lt__", "__le__", "__gt__", "__ge__"}
@@ -18,7 +18,7 @@ def citation_classes(repo: Repo) -> List[str]:
 
 
 def is_identity_hash(fn: ast.FunctionDef) -> bool:
-    body = [s for s in fn.body if not (isinstance(s, ast.Expr) and isinstance(s.value, ast.Constant))]
+    body = effective_body(fn)
     return (
         len(body) == 1
         and isinstance(body[0], ast.Return)
@@ -32,7 +32,7 @@ def is_identity_hash(fn: ast.FunctionDef) -> bool:
 
 def is_hash_eq_body(fn: ast.FunctionDef) -> bool:
     """return self.__hash__() == other.__hash__()  (or hash(self) == hash(other))"""
-    body = [s for s in fn.body if not (isinstance(s, ast.Expr) and isinstance(s.value, ast.Constant))]
+    body = effective_body(fn)
     if len(body) != 1 or not isinstance(body[0], ast.Return):
         return False
     v = body[0].value
